@@ -167,9 +167,11 @@ class PitRun:
             e = len(self.tasks) + 1
             name = self.int_name(t)
             kw = dict(can_be_prefix=bool(t['cbp']), lifetime=t['life'] * TICK_MS, nonce=0x01020304)
+            if e % 5 == 0:
+                del kw['nonce']          # the library draws the nonce itself
             if t['life'] == DEFAULT_LIFE:
-                # the lifetime is not given: the default of 4000 ms applies (appv2 also without an InterestLifetime element)
-                if self.front == 'v2' and e % 3 == 0:
+                # the lifetime is not given: the default of 4000 ms applies, also without an InterestLifetime element
+                if e % 3 == 0:
                     kw['lifetime'] = None
                 else:
                     del kw['lifetime']
